@@ -1829,9 +1829,13 @@ class Tensor:
         #
         # Create new shape list
         #
-        shape = copy.deepcopy(self.getShape())
+        # Note: only an authoritative shape can be cut up (an estimated
+        #       shape of tuple coordinates is their lexicographic maximum,
+        #       or the integer 0 for a content-free tensor)
+        #
+        shape = copy.deepcopy(self.getShape(authoritative=True))
 
-        for d in range(levels):
+        for d in range(levels if shape else 0):
             s = shape[depth + d]
             shape[depth + d] = s[0]
             if len(s) == 2:
